@@ -273,11 +273,13 @@ pub fn random_module(seed: u64, index: usize) -> Vec<Value> {
             }
             2 => {
                 d["k"] = json!("const");
+                d["ext"] = json!(rng.chance(20));
                 d["ty"] = ty(&mut rng);
                 d["val"] = json!(rng.pick(VALUES).iter().map(|s| s.to_string()).collect::<Vec<_>>());
             }
             3 => {
                 d["k"] = json!("struct");
+                d["ext"] = json!(rng.chance(20));
                 if rng.chance(15) {
                     d["opq"] = json!(true);
                 } else {
@@ -286,6 +288,7 @@ pub fn random_module(seed: u64, index: usize) -> Vec<Value> {
             }
             4 => {
                 d["k"] = json!("word");
+                d["ext"] = json!(rng.chance(20));
                 d["size"] = json!(*rng.pick(&[1u64, 2, 4, 8, 16]));
                 d["mem"] = pairs(&mut rng, 4, "m");
             }
